@@ -205,7 +205,7 @@ def apply_regime(rng, c, regime):
 
         c["params"] = {k: [fixrow(k, r) for r in v] for k, v in c["params"].items()}
         for u in c.get("updates", []):
-            u["set"] = {k: [fixrow(k, r) for r in v] for k, v in u["set"].items()}
+            u["set"] = {k: (v if k == "mapping" else [fixrow(k, r) for r in v]) for k, v in u["set"].items()}
         c["ts"] = [[f32(min(t, 10.0)) for t in row[:3]] for row in c["ts"]]
         c["ts"] = [[r[0], r[1], r[2], f32(r[1] + r[2])] for r in c["ts"]]
         c["dyadic"] = False
@@ -231,6 +231,40 @@ def gen_route(rng, kind, rkind=None):
     return r
 
 
+def structured_case(rng, kind, n, structure, count, layout="B1", batch="none"):
+    """a General(Non)Symmetric model with a STRUCTURED rate matrix through a two-class mapping, evaluated for `count`
+    branch lengths in one call.  ordered: i -> i+1 at rate 1, everything else 0.01 (nearly defective); banded:
+    nearest neighbours both ways; block: two blocks, slow exchange between them (nearly reducible); stiff: 1e4 / 1e-4"""
+    c = gen_case(rng, kind, dyadic=False, batch=batch, n=n, route={"kind": "ctor", "mapping": "list"})
+    for key in ("updates", "deepcopy", "move"):
+        c.pop(key, None)
+    c["regime"] = "f64"
+    c["holder"] = {}
+    pairs = [(i, j) for i in range(n) for j in range(i + 1, n)]
+
+    def cls(i, j, upper):
+        if structure == "ordered":
+            return 0 if (upper and j == i + 1) else 1
+        if structure == "banded":
+            return 0 if j == i + 1 else 1
+        if structure == "block":
+            return 0 if (i < n // 2) == (j < n // 2) else 1
+        return (i + j) % 2  # stiff
+
+    up = [cls(i, j, True) for i, j in pairs]
+    lo = [cls(i, j, False) for i, j in pairs]
+    c["mapping"] = up if kind == "GeneralSymmetric" else up + lo
+    fast, slow = {"ordered": (1.0, 0.01), "banded": (1.0, 0.01), "block": (1.0, 1e-4), "stiff": (1e4, 1e-4)}[structure]
+    rows = len(c["params"]["rates"])
+    c["params"]["rates"] = [[fast * (1 + 0.25 * r), slow] for r in range(rows)]
+    frows = len(c["params"]["frequencies"])
+    c["params"]["frequencies"] = [[1.0 / n] * n if r == 0 else gen_freqs(rng, n, False) for r in range(frows)]
+    c["ts"] = [[r[0], r[1], r[2], r[1] + r[2]] for r in c["ts"]]
+    c["many"] = {"ts": [0.0] + [round(10 ** rng.uniform(-3, 1), 6) for _ in range(count - 1)], "layout": layout}
+    c["structure"] = structure
+    return c
+
+
 def add_updates(rng, c, k, which=None):
     """a history on a LIVE object: after p_t() has been called, k assignments `param.tensor = new values`
     (same shapes; one parameter at a time mostly), p_t()/q() read again after each"""
@@ -248,7 +282,14 @@ def add_updates(rng, c, k, which=None):
                 st[name] = [gen_freqs(rng, c["n"], c["dyadic"]) for _ in range(rows)]
             else:
                 st[name] = [[gen_rate(rng, c["dyadic"]) for _ in range(dim)] for _ in range(rows)]
-        ups.append({"set": st})
+        u = {"set": st}
+        if c["kind"] in ("GeneralSymmetric", "GeneralNonSymmetric") and which is None and rng.random() < 0.4:
+            nr = len(c["params"]["rates"][0])
+            u["set"]["mapping"] = [rng.randrange(nr) for _ in c["mapping"]]
+        if rng.random() < 0.4:
+            u["gmove"] = {"on": rng.choice(["model", "holder", "inner"]), "name": rng.choice(names),
+                          "how": rng.choice(["cpu", "to"])}
+        ups.append(u)
     c["updates"] = ups
     if regime_of(c) == "f32in":
         apply_regime(rng, c, "f32in")  # the new values are float32 numbers too
@@ -271,7 +312,9 @@ def state_at(c, k):
     cc = {x: y for x, y in c.items() if x != "updates"}
     cc["params"] = dict(c["params"])
     for u in c.get("updates", [])[:k]:
-        cc["params"].update(u["set"])
+        cc["params"].update({nm: v for nm, v in u["set"].items() if nm != "mapping"})
+        if "mapping" in u["set"]:
+            cc["mapping"] = list(u["set"]["mapping"])  # the structural, index-valued parameter is live too
     return cc
 
 
@@ -627,6 +670,31 @@ def _impl_eval(c, outs, regime, copy):
             eig = [{"e": e[i].numpy(), "v": v[i].numpy(), "vinv": vi[i].numpy(), "S": Sm[i].numpy()}
                    for i in range(e.shape[0])]
         out["eig"] = eig
+        many = c.get("many")
+        if many:
+            # one call with MANY branch lengths, and the same branch lengths one at a time on the same object
+            tm = torch.tensor(many["ts"], dtype=torch.float64).to(ts_dtype)
+            nt = tm.numel()
+            lay_m = many.get("layout", "B1")
+            if R > 1 and lay_m == "vec":
+                lay_m = "B1"  # with a sample dimension the library's convention is sample_shape + (B, K)
+            shape = {"B1": (nt, 1), "1K": (1, nt), "vec": (nt,)}[lay_m]
+            tm = tm.reshape(shape)
+            if R > 1:
+                tm = tm.expand((R,) + shape).contiguous()
+            Pm = m.p_t(tm).detach().double()
+            if Pm.numel() != R * nt * n * n:
+                return {"status": "shape", "error": ("shape", f"p_t returned {tuple(Pm.shape)} for {nt} branch lengths "
+                                                              f"{tuple(tm.shape)}, n={n}")}
+            out["Pmany"] = Pm.reshape(R, nt, n, n).numpy().copy()
+            idx = sorted(set([0, nt - 1, min(32, nt - 1), min(33, nt - 1), nt // 2]))
+            single = {}
+            for i in idx:
+                one = torch.tensor([many["ts"][i]], dtype=torch.float64).to(ts_dtype).reshape((1, 1))
+                if R > 1:
+                    one = one.expand((R, 1, 1)).contiguous()
+                single[i] = m.p_t(one).detach().double().reshape(R, n, n).numpy().copy()
+            out["Psingle"] = single
         if c["kind"] == "MG94":
             out["masks"] = tuple("".join("1" if x == 1.0 else "0" for x in getattr(m, a).tolist())
                                  for a in ("transitions", "synonymous", "non_synonymous"))
@@ -659,7 +727,22 @@ def _impl_eval(c, outs, regime, copy):
         if outs[-1]["status"] != "ok":
             break
         try:
+            gm = u.get("gmove")
+            if gm:
+                # a (no-op) device/dtype move on some object of the graph between the previous read and the assignment
+                tgt = pars.get(gm.get("name")) if gm["on"] != "model" else m
+                if gm["on"] == "inner" and tgt is not None:
+                    inner = [getattr(tgt, a) for a in ("x", "parameter") if hasattr(getattr(tgt, a, None), "fire_parameter_changed")]
+                    tgt = inner[0] if inner else tgt
+                tgt = tgt if tgt is not None else m
+                if gm["how"] == "cpu":
+                    tgt.cpu()
+                else:
+                    tgt.to(torch.device("cpu"))
             for name, rows in u["set"].items():
+                if name == "mapping":
+                    m.mapping.tensor = torch.tensor(rows, dtype=torch.long)
+                    continue
                 t = torch.tensor(rows if c["batch"][name] else rows[0], dtype=torch.float64).to(supplied[name].dtype)
                 supplied[name] = t.clone()
                 pars[name].tensor = t
@@ -823,6 +906,40 @@ def mg94_oracle(c, out):
     return bad
 
 
+def exchangeability_oracle(c, out):
+    """the documented definition of the rate matrices, written independently of the builders: for i != j,
+    q_ij / pi_j is the exchangeability the CURRENT options name — rates[mapping[pos(i,j)]] (upper triangle row-major;
+    lower triangle: the same position for symmetric models, dim + position for the non-symmetric one), kappa on
+    transitions / 1 on transversions for HKY, (a..f) in upper-triangle order for GTR and the empirical models"""
+    k, n = c["kind"], c["n"]
+    if k not in ("GeneralSymmetric", "GeneralNonSymmetric", "HKY", "GTR", "Empirical"):
+        return []
+    pos, p = {}, 0
+    for i in range(n):
+        for j in range(i + 1, n):
+            pos[(i, j)] = p
+            p += 1
+    tol = 1e-4 if low_precision(c) else 1e-12
+    for s in range(c["R"]):
+        ps = s if c["S"] > 1 else 0
+        Q, fr = out["Q"][s], out["freqs"][s]
+        for (i, j), kpos in pos.items():
+            if k == "HKY":
+                want_up = want_lo = slice_param(c, "kappa", ps)[0] if {i, j} in ({0, 2}, {1, 3}) else 1.0
+            elif k in ("GTR", "Empirical"):
+                want_up = want_lo = slice_param(c, "rates", ps)[kpos]
+            else:
+                r, mp = slice_param(c, "rates", ps), c["mapping"]
+                want_up = r[mp[kpos]]
+                want_lo = r[mp[kpos]] if k == "GeneralSymmetric" else r[mp[len(mp) // 2 + kpos]]
+            for (a, b, want) in ((i, j, want_up), (j, i, want_lo)):
+                got = Q[a, b] / fr[b]
+                if abs(got - want) > tol * max(abs(want), 1e-300):
+                    return [("exchangeabilities", {"slice": s, "i": a, "j": b, "q_ij/pi_j": float(got),
+                                                   "named_by_the_current_options": float(want)})]
+    return []
+
+
 def unnormalised_requested(c):
     """`normalize: false` explicitly given to GeneralNonSymmetric: the options name an un-normalised process, so the
     statement `P = exp(t q()/norm)` is not demanded (everything else is)"""
@@ -843,6 +960,10 @@ def oracle(c, out):
     for key in ("not_repeatable", "mutated_inputs", "original_changed_by_updates_on_its_deepcopy"):
         if meta.get(key):
             bad.append((key, {"value": meta[key]}))
+    try:
+        bad += exchangeability_oracle(c, out)
+    except Exception as e:
+        bad.append(("exchangeabilities", {"error": repr(e)[:200]}))
     if c["kind"] == "MG94":
         try:
             bad += mg94_oracle(c, out)
@@ -901,6 +1022,27 @@ def oracle(c, out):
                 d = np.abs(F - F.T).max()
                 if d > tol:
                     bad.append(("P_detailed_balance", {"slice": s, "t": t, "max_dev": float(d)}))
+        if "Pmany" in out:
+            mts = c["many"]["ts"]
+            Pm = out["Pmany"][s]
+            tolm = max(tol_for(Qn * t_, fr, tr) for t_ in (max(mts), 1.0))
+            d = np.abs(Pm.sum(-1) - 1.0).max()
+            if d > tolm:
+                bad.append(("many_branches_rows_sum_one", {"slice": s, "branch_lengths_in_one_call": len(mts), "max_dev": float(d)}))
+            for i, one in out.get("Psingle", {}).items():
+                d = np.abs(Pm[i] - one[s]).max()
+                if d > 2 * tolm:
+                    bad.append(("many_branches_vs_one_at_a_time", {"slice": s, "branch_lengths_in_one_call": len(mts),
+                                                                   "index": i, "t": mts[i], "max_dev": float(d)}))
+                    break
+            for i in sorted(set([0, len(mts) - 1, len(mts) // 2, min(33, len(mts) - 1)])):
+                if unnormalised_requested(c):
+                    break
+                d = np.abs(Pm[i] - expm_taylor(Qn * mts[i])).max()
+                if d > tol_for(Qn * mts[i], fr, tr):
+                    bad.append(("many_branches_P_eq_exp", {"slice": s, "branch_lengths_in_one_call": len(mts), "index": i,
+                                                           "t": mts[i], "max_dev": float(d)}))
+                    break
         d = np.abs(P[1] @ P[2] - P[3]).max()
         if d > 2 * tol_max:
             bad.append(("semigroup", {"slice": s, "s": ts[1], "t": ts[2], "max_dev": float(d)}))
